@@ -27,9 +27,9 @@ ASSUMPTIONS = [
     "sqlite3 / aiosqlite, zstandard, fcntl.flock, subprocess.run are trusted to do what their documentation says",
 ]
 
-QUIRKS = os.environ.get("C15_QUIRKS", "000")  # diagnostic only: compare against the model of the pinned tree ("111")
+QUIRKS = os.environ.get("C15_QUIRKS", "0000")  # diagnostic only: compare against the model of the pinned tree ("111")
 QUIRK_NAMES = ["run_hook reads the unbound `p` when the script fails", "Scanner.teardown disconnects the database itself",
-               "no except clause for CancelledError"]
+               "no except clause for CancelledError", "_db_insert_run_meta() outside the try, connect() leaks on failure"]
 KINDS = ["plain", "scanner", "uds"]
 POINTS = ["setup", "main", "tdPre", "tdPost"]
 FAULTS = ["exit:0", "exit:3", "exitx", "conn", "uds", "other", "kbd", "cancel"]
@@ -38,13 +38,14 @@ HOW = {
     "uds": ["base", "missing"],
     "other": ["runtime", "value", "timeout", "os", "assert"],
     "cancel": ["sigint", "task"],
+    "dbopen": ["garbage", "schema-version"],
     "exitx": [None, "fatal: text"],
 }
 RES = ["lock", "art", "db", "hooks"]
 
 
-def mk(kind="plain", res="0000", pre="ok", post="ok", how=None, **ev):
-    c = {"kind": kind, "pre": pre, "post": post}
+def mk(kind="plain", res="0000", pre="ok", post="ok", dbopen="ok", how=None, **ev):
+    c = {"kind": kind, "pre": pre, "post": post, "dbopen": dbopen}
     for r, b in zip(RES, res):
         c[r] = b == "1"
     for p in POINTS:
@@ -59,18 +60,18 @@ def res_bits(c):
 
 
 def script_words(c):
-    return [c["pre"]] + [c[p] for p in POINTS] + [c["post"]]
+    return [c["pre"], c.get("dbopen", "ok")] + [c[p] for p in POINTS] + [c["post"]]
 
 
 def describe(c):
     """canonical short text of a case: only what differs from the all-off / all-ok run"""
     parts = [c["kind"]] + [r for r in RES if c[r]]
-    parts += [f"{k}={c[k]}" for k in ["pre"] + POINTS + ["post"] if c[k] != "ok"]
+    parts += [f"{k}={c[k]}" for k in ["pre", "dbopen"] + POINTS + ["post"] if c.get(k, "ok") != "ok"]
     return ":".join(parts)
 
 
 def complexity(c):
-    return (sum(1 for k in ["pre"] + POINTS + ["post"] if c[k] != "ok"), sum(1 for r in RES if c[r]),
+    return (sum(1 for k in ["pre", "dbopen"] + POINTS + ["post"] if c.get(k, "ok") != "ok"), sum(1 for r in RES if c[r]),
             KINDS.index(c["kind"]), describe(c))
 
 
@@ -92,6 +93,8 @@ def impl_final(case, o):
         ex = "esc:cancelled"
     elif ex == "raise:UnboundLocalError":
         ex = "esc:hook"
+    elif ex in ("raise:DatabaseError", "raise:ValueError", "raise:OperationalError") and case.get("dbopen") == "fail" and case["db"]:
+        ex = "esc:db"
     elif ex.startswith("raise:"):
         direct.append("escaped:" + ex[6:])
         ex = "esc:hook"
@@ -226,7 +229,7 @@ def single_scripts():
     for p in POINTS:
         for f in FAULTS:
             out.append({p: f})
-    out += [{"pre": "fail"}, {"post": "fail"}, {"pre": "fail", "post": "fail"}]
+    out += [{"pre": "fail"}, {"post": "fail"}, {"pre": "fail", "post": "fail"}, {"dbopen": "fail"}]
     return out
 
 
@@ -236,6 +239,8 @@ def pick_how(rng, c):
         k = c[p]
         if k in HOW:
             how[k] = rng.choice(HOW[k])
+    if c.get("dbopen") == "fail":
+        how["dbopen"] = rng.choice(HOW["dbopen"])
     if how:
         c["how"] = how
     return c
@@ -253,13 +258,17 @@ def build_cases(ctx):
                 cases.append(("matrix", pick_how(rng, mk(kind, res, **s))))
     ctx.exhaustive_parts.append(
         f"full matrix: 3 command kinds x 2^4 resource combinations x ({len(scripts)} scripts = all-ok + 8 exit kinds x 4 "
-        "lifecycle points + pre / post / both hooks failing)")
+        "lifecycle points + pre / post / both hooks failing + database cannot be opened)")
     # 2. every concrete exception class / way of cancelling / non-int exit code, everything switched on
     for kind in KINDS:
         for p in (POINTS if full else ["main"]):
             for k, variants in HOW.items():
                 for v in variants:
-                    cases.append(("exception-classes", mk(kind, "1111", how={k: v}, **{p: k})))
+                    if k == "dbopen":
+                        if p == "main":
+                            cases.append(("exception-classes", mk(kind, "1111", how={k: v}, dbopen="fail")))
+                    else:
+                        cases.append(("exception-classes", mk(kind, "1111", how={k: v}, **{p: k})))
     ctx.exhaustive_parts.append("every concrete exception class / cancellation mechanism (real SIGINT, Task.cancel) / non-int "
                                 "sys.exit argument x 3 kinds" + (" x 4 lifecycle points" if full else " at main"))
     # 3. two faults: main x teardown (before / after super().teardown())
@@ -281,7 +290,8 @@ def build_cases(ctx):
             if f.startswith("exit:") and rng.random() < 0.5:
                 f = "exit:" + str(rng.choice([1, 2, 64, 70, 74, 130, 255, rng.randrange(256)]))
             ev[p] = f
-        c = mk(kind, res, pre=rng.choice(["ok", "ok", "fail"]), post=rng.choice(["ok", "ok", "fail"]), **ev)
+        c = mk(kind, res, pre=rng.choice(["ok", "ok", "fail"]), post=rng.choice(["ok", "ok", "fail"]),
+               dbopen=rng.choice(["ok"] * 5 + ["fail"]), **ev)
         cases.append(("multi-fault", pick_how(rng, c)))
     # 5. the UDS scanner with its initial ping (wait_for_ecu: 0.5 s of real time each)
     for _ in range(ctx.pick(6, 32)):
@@ -343,8 +353,8 @@ def simplifications(c):
     """candidate simpler cases, fixed order"""
     for k in KINDS[: KINDS.index(c["kind"])]:
         yield {**c, "kind": k}
-    for p in ["pre"] + POINTS + ["post"]:
-        if c[p] != "ok":
+    for p in ["pre", "dbopen"] + POINTS + ["post"]:
+        if c.get(p, "ok") != "ok":
             yield {**c, p: "ok"}
     for r in RES:
         if c[r]:
@@ -395,7 +405,9 @@ def run(ctx):
                     ctx.kind(f"{p}:{c[p].split(':')[0]}")
             if c["pre"] == "fail" or c["post"] == "fail":
                 ctx.kind("hook-failure")
-            if any(c[r] for r in RES) or any(c[p] != "ok" for p in ["pre", "post"] + POINTS):
+            if c["dbopen"] == "fail":
+                ctx.kind("db-open-failure")
+            if any(c[r] for r in RES) or any(c[p] != "ok" for p in ["pre", "post", "dbopen"] + POINTS):
                 ctx.nontrivial(json.dumps(c, sort_keys=True))
             if i in (0, 7, 40, 100):
                 ctx.sample({"case": describe(c), "impl": fin, "model": mod})
@@ -425,8 +437,8 @@ def run(ctx):
             key = f"{gk}:{name}@{describe(small)}"
             # which of the repaired behaviours of the pinned tree, switched on in the model, reproduces this run?
             alts = ctx.lean([" ".join(["run", "".join(q), small["kind"], res_bits(small)] + script_words(small))
-                             for q in itertools.product("01", repeat=3)])
-            match = [q for q, a in zip(itertools.product("01", repeat=3), alts) if fin is not None and not tie_diff(a, fin)]
+                             for q in itertools.product("01", repeat=4)])
+            match = [q for q, a in zip(itertools.product("01", repeat=4), alts) if fin is not None and not tie_diff(a, fin)]
             like = ""
             if match and gk != "tie":
                 q = min(match, key=lambda q: q.count("1"))
